@@ -166,10 +166,10 @@ func c04Cells(tier string) []Cell {
 
 func c04Run(c Cell, env *Env) CellResult {
 	cfg := parseFCfg(c.ID)
-	opt := vsched.Options{PreemptionBound: 2, EnvBound: 1}
+	opt := vsched.Options{PreemptionBound: 2, EnvBound: 1, HBCache: true}
 
 	if env.Thorough() {
-		opt = vsched.Options{PreemptionBound: 3, EnvBound: 2, MaxExecs: 300000}
+		opt = vsched.Options{PreemptionBound: 3, EnvBound: 2, HBCache: true, MaxExecs: 300000}
 	}
 
 	return exploreF(cfg, env, opt, c04Post, c04Check)
